@@ -1,5 +1,6 @@
 import ScsiVerif.Driver.PVText
 import ScsiVerif.Std.DataIn
+import ScsiVerif.Std.DataOut
 import ScsiVerif.Model.Formats.Encode
 /-!
 Line-protocol access to the oracle `Std.DataIn`: the harness asks Lean for the bytes of a block /
@@ -27,12 +28,13 @@ def showField (g : DField) : String :=
 def showBlock (b : Block) : String :=
   b.name ++ ":" ++ toString b.base ++ ":" ++ toString b.len ++ ":" ++ ";".intercalate (b.fields.map showField)
 
-def findBlock (name : String) : Option Block := allBlocks.find? (·.name == name)
+def findBlock (name : String) : Option Block := (allBlocks ++ allOutBlocks).find? (·.name == name)
 
 def stdOp (toks : List String) : Option String :=
   match toks with
   -- blklist : every block of Std.DataIn (name:base:len:key/byte/msb/width;…)
   | ["blklist"] => some ("ok " ++ "|".intercalate (allBlocks.map showBlock))
+  | ["blklist", "out"] => some ("ok " ++ "|".intercalate (allOutBlocks.map showBlock))
   -- blkenc <block> <D values> : the bytes of the block for these values, every other bit zero
   | ["blkenc", name, d] => do
     let b ← findBlock name
